@@ -69,10 +69,14 @@ pub async fn scenario() {
 	// that case is not judged)
 	let cap = if ping_mode { 0 } else { *rt::pick("stream_cap", &[0usize, 0, 32, 100]) };
 	let frag = if rt::chance("frag", 1, 4) { Frag { short: true, latency_ms: 2, cap } } else { Frag { cap, ..Frag::default() } };
+	let sweep_base = rt::param("sweep_base").is_some();
 	let n_steps = rt::draw_range("n_steps", 4, 20);
 	let mut steps = Vec::new();
 	for _ in 0..n_steps {
-		steps.push(match rt::draw("step", 20) {
+		let k = rt::draw("step", 20);
+		// base histories of the fault sweep contain no aborts of their own
+		let k = if (sweep_base || rt::param("fault_at").is_some()) && matches!(k, 8 | 13..=16) { 19 } else { k };
+		steps.push(match k {
 			0..=5 => Step::OpenWs,
 			6 | 7 => Step::HttpCall,
 			8 => Step::HttpCallAborted,
@@ -84,6 +88,16 @@ pub async fn scenario() {
 			18 if ping_mode => Step::SilenceWs(rt::draw("s", 4) as usize),
 			_ => Step::Settle(if ping_mode && rt::chance("long_settle", 1, 3) { 5000 } else { rt::draw_range("ms", 1, 50) }),
 		});
+	}
+	// fault-position sweep: one abort placed before step `fault_at`
+	if let Some(at) = rt::param("fault_at") {
+		let f = match rt::param("fault_kind").unwrap_or(0) {
+			0 => Step::AbortWs(0),
+			1 => Step::AbortMidHandshake,
+			2 => Step::HttpCallAborted,
+			_ => Step::BadUpgrade,
+		};
+		steps.insert((at as usize - 1).min(steps.len()), f);
 	}
 	rt::event("plan", format!("entry={entry:?} max_connections={max} frag={frag:?} ping_mode={ping_mode} steps={steps:?}"));
 	let mut world = World::new(SrvCfg { entry, frag, max_conns: max, auto_sub: true, ping: ping_mode, ..Default::default() });
@@ -286,6 +300,9 @@ pub async fn scenario() {
 		}
 	}
 	let _ = refill_start;
+	if sweep_base {
+		rt::probe_n("steps", steps.len() as u64);
+	}
 	// ---------------- oracle over the history ----------------
 	let log = world.log.lock().unwrap();
 	// observations made by handlers
